@@ -197,17 +197,25 @@ PROPS["C25"] = {
 PROPS["C18"] = {
     "title": "Growing one structure never corrupts another",
     "kani": [("kani/storage/idmap.rs", r"^c18_"), ("kani/storage/pager.rs", r"^c18_")],
-    "e2": ["idmap"],
-    "functions_encoded": ["nervusdb_storage::idmap::i2e_location", "pager::Bitmap::{new,get_bit,set_bit,find_free_in_range}"],
+    "e2": ["idmap", "pager"],
+    "functions_encoded": ["nervusdb_storage::idmap::i2e_location", "pager::Bitmap::{new,get_bit,set_bit,find_free_in_range}",
+                          "E2: pager::Pager::{allocate_page, ensure_allocated, free_page, read_page, write_page, validate_data_page_id, "
+                          "flush_meta_and_bitmap}, idmap::write_i2e_record"],
     "bounds": {"node ids": "all ids < 2^32, table start page in [2, 65536)", "bitmap": "real 8 KiB bitmap; symbolic 4-byte window "
                "for set/get/find (bits 0..31), any single bit index < 65536 for set/get on a fresh bitmap", "unwind": "4-36"},
-    "stubs": [],
-    "assumptions": ["the node table owns exactly the one page apply_create_node_multi_label obtains from allocate_page (read from the code; "
+    "stubs": ["E2 pager targets: File::{metadata,set_len,sync_data}, read_page_raw/write_page_raw replaced by an in-memory page store; "
+              "Meta::encode_page opaque; Range<u64>::find runs the real predicate closure per element"],
+    "assumptions": ["E2 allocator step: pre-state = any bitmap over pages 0..15 with pages 0,1 reserved, no page >= next_page_id marked, "
+                    "2 <= next_page_id <= 12 (the invariant Pager::open and every step re-establish; the step check re-proves it)",
+                    "the node table owns exactly the one page apply_create_node_multi_label obtains from allocate_page (read from the code; "
                     "E2 obligation O2 decides the call structure)"],
     "outside_claim": ["blob chains, CSR pages, catalog/B-tree pages (they all allocate through allocate_page = O3)",
-                      "multi-step allocation histories through the real Pager (do not fit under Kani, DESIGN.md section 1)"],
+                      "multi-step allocation histories beyond two steps (one inductive step from any valid state + two-in-a-row)",
+                      "pages >= 16 in the E2 allocator step (the Kani bitmap harnesses cover any single bit < 65536)"],
     "level_text": "Bounded model checking (Kani/CBMC) of node-table addressing and the allocator bitmap: records lie inside one page "
-                  "and never overlap; the allocator hands out the least free page >= 2 and set/get touch exactly one bit. The record "
+                  "and never overlap; set/get touch exactly one bit. MIR symbolic execution (z3) of the real Pager::allocate_page / "
+                  "free_page from any valid allocator state: the page handed out was free, is >= 2, gets marked, no other bit changes, "
+                  "two allocations never coincide; and of the real write_i2e_record against a neighbouring structure's page. The record "
                   "page must be the page the allocator gave to the node table: holds for ids < 512, fails for ids >= 512 (recorded "
                   "known finding: node records spill into pages owned by other structures).",
     "level_note": "Trusted: Kani/CBMC/CaDiCaL. One inductive step per kernel; page ownership of other structures follows from the "
